@@ -56,7 +56,15 @@ class VetoStop(Veto, StopIteration):
     """A veto that is a StopIteration (a hook that calls next() on an exhausted iterator): it must arrive as what it is."""
 
 
-VETO_KINDS = {None: Veto, "assert": VetoAssert, "tree": VetoTree, "lookup": VetoLookup, "stop": VetoStop}
+class VetoRecursion(Veto, RecursionError):
+    """A pre-hook that leaves with RecursionError (a validating hook that walks a very deep subtree): an ordinary Exception."""
+
+
+class VetoMemory(Veto, MemoryError):
+    """A pre-hook that leaves with MemoryError (an allocation it made failed): an ordinary Exception as well."""
+
+
+VETO_KINDS = {None: Veto, "assert": VetoAssert, "tree": VetoTree, "lookup": VetoLookup, "stop": VetoStop, "recursion": VetoRecursion, "memory": VetoMemory}
 
 
 class VetoBase(BaseException):
@@ -474,6 +482,7 @@ CLASSES = {
     "HLateNM": (None, "NM", True),
     "HLateLM": (None, "LM", True),
     "HInstNM": (None, "NM", True),
+    "HInstLM": (None, "LM", True),  # a LightNodeMixin class WITHOUT __slots__: instances have a dict and may carry their own hooks
     "SymlinkNodeU": (None, "NM", False),
     "Node": (lambda l: Node(_name(l)), "NM", False),
     "AnyNode": (lambda l: AnyNode(name=_name(l)), "NM", False),
@@ -528,7 +537,7 @@ HOOK_NAMES = ["_pre_detach", "_post_detach", "_pre_attach", "_post_attach", "_pr
 def _late_universe(clsname, n):
     """Nodes of a class that is defined WITHOUT hooks, used for a few link changes, and only then instrumented:
     HLateNM/HLateLM get the hook methods assigned to the class, HInstNM gets a callable per instance and hook."""
-    base = LightNodeMixin if clsname == "HLateLM" else NodeMixin
+    base = LightNodeMixin if clsname in ("HLateLM", "HInstLM") else NodeMixin
 
     def init(self, name):
         self.name = name
@@ -540,7 +549,7 @@ def _late_universe(clsname, n):
         nodes[1].children = []
         nodes[1].children = [nodes[0]]
         del nodes[1].children
-    if clsname == "HInstNM":
+    if clsname in ("HInstNM", "HInstLM"):
         for node in nodes:
             for name in HOOK_NAMES:
                 setattr(node, name, (lambda arg, node=node, kind=name[1:]: _rec().hook(kind, node, arg)))
@@ -551,7 +560,7 @@ def _late_universe(clsname, n):
 
 
 def create_nodes(classes):
-    if classes and classes[0] in ("HLateNM", "HLateLM", "HInstNM"):
+    if classes and classes[0] in ("HLateNM", "HLateLM", "HInstNM", "HInstLM"):
         return _late_universe(classes[0], len(classes))
     universe = []
     for i, clsname in enumerate(classes):
@@ -1061,7 +1070,7 @@ def history_strategy(max_nodes=7, max_steps=30, faults="none", invalid=False, cl
         if faults == "none":
             plan = st.just({})
         else:
-            once = st.tuples(st.lists(st.integers(1, 14), min_size=1, max_size=2, unique=True), st.sampled_from([None, None, "assert", "tree", "lookup", "stop"])).map(lambda t: {"once": sorted(t[0]), "exc": t[1]} if t[1] else {"once": sorted(t[0])})
+            once = st.tuples(st.lists(st.integers(1, 14), min_size=1, max_size=2, unique=True), st.sampled_from([None, None, "assert", "tree", "lookup", "stop", "recursion", "memory"])).map(lambda t: {"once": sorted(t[0]), "exc": t[1]} if t[1] else {"once": sorted(t[0])})
             persist = st.lists(st.tuples(st.sampled_from(list(hooks)), idx).map(list), min_size=1, max_size=3).map(lambda ps: {"persist": ps})
             readonly = st.just({"persist": [[h, i] for i in range(n) for h in ("pre_detach", "pre_attach")]})
             plans = [st.just({}), st.just({}), once, once, persist, readonly]
@@ -1147,7 +1156,7 @@ def enum_fault_cases(cls, n, index, count, fault_hooks=(), pairs=False, persist=
     """Single-step cases: every forest x build route x call x fault position of this shard."""
     family = family_of(cls)
     fault_hooks = set(fault_hooks)
-    kinds = itertools.cycle([None, "assert", None, "tree", None, "lookup", None, "stop"])
+    kinds = itertools.cycle([None, "assert", None, "tree", None, "lookup", None, "stop", None, "recursion", "memory"])
     classes = class_list(cls, n)
     for state, route in enum_states(n, index, count):
         if routes is not None and route not in routes:
